@@ -10,7 +10,11 @@ augment / deviation statements (`include_eq_inline_noaug`); for sets with augmen
 stage after FixChoice the statement was refuted (finding D67) until that stage was made a fixpoint — the
 witness pair now satisfies it (`include_eq_inline_witness`); and for the statement
 `IncludeEqInlineAugments` the order-independence step of the augment loop
-(`include_augment_loop_order`, `include_augment_loop_clean_iff`, `include_pending_rows`, `no_leftover_result`).
+(`include_augment_loop_order`, `include_augment_loop_clean_iff`, `include_pending_rows`, `no_leftover_result`),
+the canonical dump as a function of the view (`dump_of_path_view`, `dump_of_view`, `fixChoice_path_view`,
+`include_dump_in_unsplit_order`) and the machine-checked reduction `include_eq_inline_augments_reduced` of the
+statement to what is still open (`LoopsRelated`: equal pending augment entries and the lockstep simulation of
+the two loops in the same module order, plus the bookkeeping of lazily created rpc inputs / outputs).
 -/
 namespace Goyang.Props.C13c
 open Goyang.Model
